@@ -71,6 +71,7 @@ def strip_comments(src):
 TOK = re.compile(r"""
     (?P<ws>\s+)
   | (?P<int>0b[01_]+|0x[0-9a-fA-F_]+|\d[\d_]*)(?P<suf>u8|u16|u32|u64|u128|usize|i32|i64|isize)?
+  | (?P<rawstr>r\#*"(?:[^"])*"\#*)
   | (?P<str>"(?:\\.|[^"\\])*")
   | (?P<char>'(?:\\.|[^\\'])')
   | (?P<life>'[A-Za-z_][A-Za-z0-9_]*)
@@ -92,6 +93,8 @@ def tokenize(src):
             t = m.group("int").replace("_", "")
             v = int(t[2:], 2) if t.startswith("0b") else int(t[2:], 16) if t.startswith("0x") else int(t)
             toks.append(("int", v, m.group("suf")))
+        elif m.group("rawstr"):
+            toks.append(("rawstr", m.group("rawstr")))
         elif m.group("str"):
             toks.append(("str", m.group("str")))
         elif m.group("char"):
@@ -266,7 +269,20 @@ class Parser:
             if self.at(";") or self.at("}") or self.at(","):
                 return ("return", None)
             return ("return", self.expr(no_struct))
+        if self.at("continue") and (self.at(";", 1) or self.at("}", 1) or self.at(",", 1)):
+            self.eat()
+            return ("continue",)
+        if self.at("..") or self.at("..="):
+            incl = self.eat()[1] == "..="
+            hi = self.binary(0, no_struct)
+            return ("range", None, hi, incl)
         lhs = self.binary(0, no_struct)
+        if self.at("..") or self.at("..="):
+            incl = self.eat()[1] == "..="
+            hi = None
+            if not (self.at("]") or self.at(")") or self.at(";") or self.at(",") or self.at("{")):
+                hi = self.binary(0, no_struct)
+            return ("range", lhs, hi, incl)
         tk = self.peek()
         if tk[0] == "p" and tk[1] in ASSIGN_OPS:
             self.eat()
@@ -351,10 +367,20 @@ class Parser:
                     e = ("field", e, str(tk[1]))
                     continue
                 name = self.eat_id()
+                targs = None
                 if self.at("::"):
-                    raise ParseError("turbofish")
+                    self.eat("::")
+                    self.eat("<")
+                    targs = []
+                    while not self.at(">"):
+                        targs.append(self.type_())
+                        self.accept(",")
+                    self.eat(">")
                 if self.at("("):
-                    e = ("mcall", e, name, self.args())
+                    if targs is not None:
+                        e = ("mcall_t", e, name, targs, self.args())
+                    else:
+                        e = ("mcall", e, name, self.args())
                 else:
                     e = ("field", e, name)
             elif self.at("["):
@@ -363,7 +389,8 @@ class Parser:
                 self.eat("]")
                 e = ("index", e, idx)
             elif self.at("?"):
-                raise ParseError("? operator")
+                self.eat("?")
+                e = ("try", e)
             else:
                 return e
 
@@ -383,6 +410,16 @@ class Parser:
                     init = self.expr()
                 self.eat(";")
                 stmts.append(("let", pat, ty, init))
+                continue
+            if self.at("const") and self.peek(1)[0] == "id" and self.at(":", 2):
+                self.eat("const")
+                name = self.eat_id()
+                self.eat(":")
+                ty = self.type_()
+                self.eat("=")
+                init = self.expr()
+                self.eat(";")
+                stmts.append(("let", ("pbind", name), ty, init))
                 continue
             if self.at("fn") or self.at("use") or self.at("const") or self.at("static"):
                 raise ParseError("nested item")
@@ -406,6 +443,9 @@ class Parser:
         if tk[0] == "str":
             self.eat()
             return ("str", tk[1])
+        if tk[0] == "rawstr":
+            self.eat()
+            return ("rawstr", tk[1])
         if tk[0] == "char":
             self.eat()
             return ("char", tk[1])
@@ -462,7 +502,14 @@ class Parser:
             it = self.expr(no_struct=True)
             body = self.block()
             return ("for", pat, it, body)
-        if self.at("while") or self.at("loop") or self.at("unsafe"):
+        if self.at("while"):
+            self.eat()
+            if self.at("let"):
+                raise ParseError("while let")
+            cond = self.expr(no_struct=True)
+            body = self.block()
+            return ("while", cond, body)
+        if self.at("loop") or self.at("unsafe"):
             raise ParseError("unsupported construct " + tk[1])
         if tk[0] == "id" and tk[1] in ("true", "false"):
             self.eat()
@@ -477,6 +524,9 @@ class Parser:
                 if self.at("<"):
                     raise ParseError("turbofish")
                 segs.append(self.eat_id())
+            if len(segs) > 1 and self.at("!") and (self.at("(", 1) or self.at("[", 1)):
+                self.eat("!")
+                return self.macro(segs[-1])
             if self.at("{") and not ns and segs[-1][0].isupper():
                 return self.struct_lit(segs)
             return ("path", segs)
@@ -523,8 +573,52 @@ class Parser:
             self.accept(",")
             self.eat(")")
             return ("matches", e, pat)
-        if name in ("panic", "unreachable", "unimplemented", "todo", "assert", "debug_assert", "assert_eq",
-                    "debug_assert_eq", "format", "println", "eprintln", "write", "writeln"):
+        if name in ("write", "writeln"):
+            self.eat("(")
+            sink = self.expr()
+            self.eat(",")
+            tk = self.eat()
+            if tk[0] != "str":
+                raise ParseError("format string expected")
+            args = []
+            while self.accept(","):
+                if self.at(")"):
+                    break
+                if self.peek()[0] == "id" and self.at("=", 1) and not self.at("==", 1):
+                    nm = self.eat_id()
+                    self.eat("=")
+                    args.append(("named", nm, self.expr()))
+                    continue
+                args.append(self.expr())
+            self.eat(")")
+            return ("macro", name, [sink, ("str", tk[1])] + args)
+        if name == "format":
+            self.eat("(")
+            tk = self.eat()
+            if tk[0] != "str":
+                raise ParseError("format string expected")
+            args = []
+            while self.accept(","):
+                if self.at(")"):
+                    break
+                args.append(self.expr())
+            self.eat(")")
+            return ("macro", "format", [("str", tk[1])] + args)
+        if name in ("assert", "debug_assert"):
+            self.eat("(")
+            cond = self.expr()
+            depth = 1
+            while depth:
+                tk = self.eat()
+                if tk[0] == "eof":
+                    raise ParseError("unbalanced assert!")
+                if tk[0] == "p" and tk[1] == "(":
+                    depth += 1
+                elif tk[0] == "p" and tk[1] == ")":
+                    depth -= 1
+            return ("macro", "assert", [cond])
+        if name in ("panic", "unreachable", "unimplemented", "todo", "assert_eq",
+                    "debug_assert_eq", "println", "eprintln"):
             o = self.peek()[1]
             self.skip_balanced(o, {"(": ")", "[": "]", "{": "}"}[o])
             return ("macro", name, [])
@@ -561,15 +655,39 @@ class Parser:
                     out.append(self.struct_())
                 elif self.at("enum"):
                     out.append(self.enum_())
+                elif impl_type is None and self.at("const") and self.peek(1)[0] == "id" and self.at(":", 2):
+                    self.eat("const")
+                    name = self.eat_id()
+                    self.eat(":")
+                    ty = self.type_()
+                    self.eat("=")
+                    init = self.expr()
+                    self.eat(";")
+                    out.append(("const", name, ty, init))
                 elif self.at("use") or self.at("const") or self.at("static") or self.at("type"):
-                    while not self.at(";"):
-                        self.eat()
+                    depth = 0
+                    while depth > 0 or not self.at(";"):
+                        tk = self.eat()
+                        if tk[0] == "eof":
+                            raise ParseError("unterminated item")
+                        if tk[0] == "p" and tk[1] in "([{":
+                            depth += 1
+                        elif tk[0] == "p" and tk[1] in ")]}":
+                            depth -= 1
                     self.eat(";")
                 elif self.at("mod"):
                     self.eat()
                     self.eat_id()
                     if not self.accept(";"):
-                        self.skip_balanced("{", "}")
+                        # the items of an inline module are read as if they stood at the top level
+                        self.eat("{")
+                        sub = Parser(self.t)
+                        sub.i = self.i
+                        a, b = sub.items(impl_type=None, until="}")
+                        self.i = sub.i
+                        self.eat("}")
+                        out += a
+                        skipped += b
                 elif self.at("macro_rules"):
                     self.eat()
                     self.eat("!")
@@ -608,8 +726,21 @@ class Parser:
     def fn_(self, impl_type, is_pub):
         self.eat("fn")
         name = self.eat_id()
+        generics = {}
         if self.at("<"):
-            raise ParseError("generic fn " + name)
+            # only the shape `<H: Hasher>` (one type parameter with one trait bound) is read
+            self.eat("<")
+            g = self.eat_id()
+            self.eat(":")
+            bound = self.eat_id()
+            while self.accept("::"):
+                bound = self.eat_id()
+            if not self.at(">"):
+                raise ParseError("generic fn " + name)
+            self.eat(">")
+            if bound != "Hasher":
+                raise ParseError("generic fn " + name)
+            generics[g] = bound
         self.eat("(")
         self_kind, params = None, []
         while not self.at(")"):
@@ -628,7 +759,15 @@ class Parser:
                 self.accept("mut")
                 pn = self.eat_id()
                 self.eat(":")
-                params.append((pn, self.type_()))
+                pt = self.type_()
+                # a parameter of the generic hasher type is a sink of written words
+                def subst(t):
+                    if t[0] == "tpath" and t[1] in generics:
+                        return ("tpath", "Hasher", [])
+                    if t[0] == "tref":
+                        return ("tref", t[1], subst(t[2]))
+                    return t
+                params.append((pn, subst(pt)))
             self.accept(",")
         self.eat(")")
         ret = None
